@@ -8,7 +8,7 @@
     a child does not change without the shell being told; the still unreported
     changes are exactly the statuses not yet delivered). *)
 From Coq Require Import ZArith List Bool Arith Lia.
-From Cicada Require Import Model.Jobs Model.Term Model.WaitTerm Proofs.JobsInv.
+From Cicada Require Import Model.Jobs Model.Term Model.WaitTerm Proofs.JobsInv Proofs.TermSim.
 Import ListNotations.
 Local Open Scope Z_scope.
 
@@ -597,4 +597,77 @@ Proof.
   - destruct (wait_o_blocked _ _ _ _ _ _ _ _ _ _ _ _ _ _ _ _ W) as (kk1 & w1 & we1 & ->).
     destruct L as (_ & L2 & _). cbn in L2. rewrite M in L2. discriminate L2.
   - destruct L as (k1 & w1 & we1 & L). rewrite L in M. discriminate M.
+Qed.
+
+(** (2) the oracle loop and C06's [Jobs.wait_loop] are one function: on the same
+    statuses, from the same shell value, settled set and status, they return at
+    the same status with the same shell (job table + parked maps), the same
+    [cmd_result.status], the same statuses left; an exhausted list is
+    [w_blocked = true] there and [WBlocked] here. *)
+Definition same_result (r : wres) (o : wout) : Prop :=
+  match o with
+  | WReturned s' st lft =>
+      w_sh r = shl (k s') /\ w_status r = st /\ w_blocked r = false /\ lft = map RStatus (w_left r)
+  | WBlocked s1 st =>
+      w_sh r = shl (k s1) /\ w_status r = st /\ w_blocked r = true /\ w_left r = []
+  | WOutOfFuel => False
+  end.
+
+Lemma wait_o_is_wait_loop : forall c gid pids v rest ow m g evs fuel kk w we status,
+  (length evs < fuel)%nat ->
+  same_result (Jobs.wait_loop evs (shl kk) gid pids (last pids 0) (length pids) w status)
+              (wait_o c fuel (map RStatus evs) kk gid pids w v rest ow m g we status).
+Proof.
+  intros c gid pids v rest ow m g. induction evs as [|e evs IH]; intros fuel kk w we status L;
+    (destruct fuel as [|f]; [inversion L|]).
+  - cbn. repeat split.
+  - rewrite wait_loop_cons. cbn [map wait_o]. unfold wait_body.
+    destruct (wait_one (shl kk) gid pids w e) as [s1 w1].
+    cbn [length] in L.
+    destruct (is_cont e); cbn [negb andb].
+    + apply (IH f (mkcore (procs kk) s1 (outs kk ++ wait_report (shl kk) gid pids e))). lia.
+    + destruct (length pids <=? length w1)%nat.
+      * destruct (finish_facts c (mkcore (procs kk) s1 (outs kk ++ wait_report (shl kk) gid pids e)) v ow m
+                   (g ++ [Wait gid pids (we ++ [e])]) rest) as (_ & _ & _ & _ & F5).
+        cbn. rewrite F5. repeat split.
+      * apply (IH f (mkcore (procs kk) s1 (outs kk ++ wait_report (shl kk) gid pids e))). lia.
+Qed.
+
+Lemma wait_fg_o_is_wait_fg_job : forall c gid pids v rest ow m g evs fuel kk,
+  (length evs < fuel)%nat ->
+  same_result (Jobs.wait_fg_job (shl kk) gid pids evs)
+              (wait_fg_o c fuel (map RStatus evs) kk gid pids v rest ow m g).
+Proof.
+  intros. destruct pids as [|p0 ps] eqn:EP.
+  - cbn [Jobs.wait_fg_job wait_fg_o].
+    destruct (finish_facts c kk v ow m (g ++ [Wait gid [] []]) rest) as (_ & _ & _ & _ & F5).
+    cbn. rewrite F5. repeat split.
+  - unfold Jobs.wait_fg_job, wait_fg_o. rewrite <- EP. apply wait_o_is_wait_loop. assumption.
+Qed.
+
+(** C06's model has no ECHILD answer: running out of statuses there
+    ([w_blocked = true]) is what the injection hook turns into ECHILD. So: where
+    [Jobs.wait_loop] ends blocked, the oracle loop followed by ECHILD returns
+    with that shell and that status. *)
+Lemma wait_o_echild_is_blocked : forall c gid pids v rest ow m g evs fuel kk w we status post,
+  (length evs < fuel)%nat ->
+  w_blocked (Jobs.wait_loop evs (shl kk) gid pids (last pids 0) (length pids) w status) = true ->
+  exists s',
+    wait_o c fuel (map RStatus evs ++ REchild :: post) kk gid pids w v rest ow m g we status =
+      WReturned s' (w_status (Jobs.wait_loop evs (shl kk) gid pids (last pids 0) (length pids) w status)) post /\
+    shl (k s') = w_sh (Jobs.wait_loop evs (shl kk) gid pids (last pids 0) (length pids) w status).
+Proof.
+  intros c gid pids v rest ow m g. induction evs as [|e evs IH]; intros fuel kk w we status post L;
+    (destruct fuel as [|f]; [inversion L|]).
+  - intros _. cbn [map app wait_o Jobs.wait_loop w_status w_sh].
+    eexists. split; [reflexivity|].
+    destruct (finish_facts c kk v ow m (g ++ [Wait gid pids we]) rest) as (_ & _ & _ & _ & F5). rewrite F5. reflexivity.
+  - rewrite wait_loop_cons. cbn [map app wait_o]. unfold wait_body.
+    destruct (wait_one (shl kk) gid pids w e) as [s1 w1].
+    cbn [length] in L.
+    destruct (is_cont e); cbn [negb andb].
+    + apply (IH f (mkcore (procs kk) s1 (outs kk ++ wait_report (shl kk) gid pids e))). lia.
+    + destruct (length pids <=? length w1)%nat.
+      * intros B. discriminate B.
+      * apply (IH f (mkcore (procs kk) s1 (outs kk ++ wait_report (shl kk) gid pids e))). lia.
 Qed.
